@@ -120,6 +120,18 @@ async def amain(spec: dict) -> dict:
             awaiters.append(asyncio.ensure_future(one_awaiter()))
             await asyncio.sleep(0)
     sp_task = asyncio.ensure_future(spawn_awaiters()) if spec.get('many_awaiters') else None
+    if spec.get('cancel_first_awaiter') is not None:
+        # somebody awaits the handle and gives up (a time-out around the await) while the child is still running; the handle is awaited again afterwards
+        first = asyncio.ensure_future(one_awaiter())
+        await asyncio.sleep(spec['cancel_first_awaiter'])
+        first.cancel()
+        try:
+            await first
+            res['first_awaiter'] = 'returned'
+        except asyncio.CancelledError:
+            res['first_awaiter'] = 'cancelled'
+        except BaseException as e:  # noqa
+            res['first_awaiter'] = f'raised {type(e).__name__}'
     try:
         ex = await asyncio.wait_for(await_and_look(), timeout=spec.get('timeout', 20))
         res['awaited'] = True
@@ -132,6 +144,12 @@ async def amain(spec: dict) -> dict:
     except asyncio.TimeoutError:
         res['awaited'] = False
         res['raised_out'] = 'Timeout'
+        # where is everybody? (used to recognise known findings by their mechanism)
+        import traceback
+        frames = sys._current_frames()
+        res['stacks_at_timeout'] = {th.name: [f'{fs.filename.split("/")[-1]}:{fs.lineno} {fs.name}' for fs in traceback.extract_stack(frames[th.ident])][-8:]
+                                    for th in threading.enumerate() if th.ident in frames}
+        res['tasks_at_timeout'] = sorted(_task_name(t) for t in asyncio.all_tasks() if not t.done())
     except BaseException as e:  # noqa
         res['awaited'] = False
         res['raised_out'] = f'{type(e).__name__}: {e}'
